@@ -240,7 +240,118 @@ def extract(src, rel, qual, k, only):
     return new_src, before, line, helper_name, params, outputs
 
 
-def enumerate_variants(files, per_function, seed):
+# ---------------------------------------------------------------------------------------------------------------------
+# further behaviour-preserving rewrites (kind != 'extract'): applied to the k-th eligible node of the function
+def _eligible(fn, kind):
+    out = []
+    for n in walk_local(fn):
+        if kind == 'negate-if' and isinstance(n, ast.If) and n.orelse and not (len(n.orelse) == 1 and isinstance(n.orelse[0], ast.If)):
+            out.append(n)
+        elif kind == 'split-and' and isinstance(n, ast.If) and not n.orelse and isinstance(n.test, ast.BoolOp) and isinstance(n.test.op, ast.And):
+            out.append(n)
+        elif kind == 'guard-to-else' and isinstance(n, ast.If) and not n.orelse and n.body and isinstance(n.body[-1], (ast.Raise, ast.Return)):
+            out.append(n)
+        elif kind == 'intro-temp' and isinstance(n, (ast.Assign, ast.Expr, ast.Return)) and n.value is not None:
+            c = _first_evaluated_call(n.value)
+            if c is not None:
+                out.append(n)
+    return out
+
+
+def _first_evaluated_call(e):
+    """the receiver expression of the first call evaluated in e, when it is itself a call or an attribute chain worth naming"""
+    cur = e
+    while True:
+        if isinstance(cur, ast.Call) and isinstance(cur.func, ast.Attribute):
+            inner = cur.func.value
+            if isinstance(inner, ast.Call) and isinstance(inner.func, ast.Attribute):
+                cur = inner
+                continue
+            if isinstance(inner, ast.Attribute) and not isinstance(inner.value, ast.Name):
+                return inner
+            if isinstance(inner, ast.Attribute) and isinstance(inner.value, ast.Name):
+                return inner if isinstance(cur, ast.Call) else None
+            return cur if cur is not e else None
+        return None
+
+
+def rewrite(src, rel, qual, k, only, kind):
+    tree = ast.parse(src)
+    fn = dict(functions_of(tree, only))[qual]
+    nodes = _eligible(fn, kind)
+    n = nodes[k]
+    before = ast.unparse(n).split('\n')[0][:80]
+    line = n.lineno
+    parent_lists = statement_lists(fn)
+
+    def holder_of(stmt):
+        for path, lst in parent_lists:
+            for i, st in enumerate(lst):
+                if st is stmt:
+                    return lst, i
+        return None, None
+    if kind == 'negate-if':
+        n.test = ast.UnaryOp(op=ast.Not(), operand=n.test)
+        n.body, n.orelse = n.orelse, n.body
+    elif kind == 'split-and':
+        first, rest = n.test.values[0], n.test.values[1:]
+        inner = ast.If(test=rest[0] if len(rest) == 1 else ast.BoolOp(op=ast.And(), values=rest), body=n.body, orelse=[])
+        n.test = first
+        n.body = [inner]
+    elif kind == 'guard-to-else':
+        lst, i = holder_of(n)
+        if lst is None or i + 1 >= len(lst):
+            raise ValueError('nothing after the guard')
+        rest = lst[i + 1:]
+        del lst[i + 1:]
+        n.orelse = rest
+    elif kind == 'intro-temp':
+        lst, i = holder_of(n)
+        if lst is None:
+            raise ValueError('statement not found')
+        target = _first_evaluated_call(n.value)
+        tmp = f"tmp_{k}"
+
+        class R(ast.NodeTransformer):
+            def visit(self, node):
+                if node is target:
+                    return ast.Name(id=tmp, ctx=ast.Load())
+                return super().visit(node)
+        n.value = R().visit(n.value)
+        lst.insert(i, ast.Assign(targets=[ast.Name(id=tmp, ctx=ast.Store())], value=target))
+    ast.fix_missing_locations(fn)
+    lines = src.split('\n')
+    indent = ' ' * fn.col_offset
+    start = (fn.decorator_list[0].lineno if fn.decorator_list else fn.lineno) - 1
+    new_fn = ast.unparse(fn).split('\n')
+    new_src = '\n'.join(lines[:start] + [indent + l if l else l for l in new_fn] + lines[fn.end_lineno:])
+    return new_src, before, line, kind, [], []
+
+
+KINDS = ('extract', 'negate-if', 'split-and', 'guard-to-else', 'intro-temp')
+
+
+def enumerate_variants(files, per_function, seed, kinds=('extract',)):
+    out = []
+    for kind in kinds:
+        if kind == 'extract':
+            out += [(rel, q, k, 'extract') for rel, q, k in enumerate_extract(files, per_function, seed)]
+            continue
+        rnd = random.Random(seed)
+        for rel, only in TARGETS.items():
+            if files and rel not in files:
+                continue
+            src = open(os.path.join(REPO, rel), encoding='utf-8').read()
+            tree = ast.parse(src)
+            for q, fn in functions_of(tree, only):
+                ks = list(range(len(_eligible(fn, kind))))
+                rnd.shuffle(ks)
+                for k in sorted(ks[:per_function]):
+                    out.append((rel, q, k, kind))
+    return out
+
+
+def enumerate_extract(files, per_function, seed):
     rnd = random.Random(seed)
     out = []
     for rel, only in TARGETS.items():
@@ -262,13 +373,16 @@ def enumerate_variants(files, per_function, seed):
 
 
 def run_variant(spec):
-    rel, qual, k = spec
-    rec = {'file': rel, 'function': qual, 'k': k}
+    rel, qual, k, kind = spec
+    rec = {'file': rel, 'function': qual, 'k': k, 'kind': kind}
     tmp = tempfile.mkdtemp(prefix='mxsa-rf-', dir='/dev/shm')
     try:
         src = open(os.path.join(REPO, rel), encoding='utf-8').read()
         try:
-            new_src, before, line, helper, params, outputs = extract(src, rel, qual, k, TARGETS[rel])
+            if kind == 'extract':
+                new_src, before, line, helper, params, outputs = extract(src, rel, qual, k, TARGETS[rel])
+            else:
+                new_src, before, line, helper, params, outputs = rewrite(src, rel, qual, k, TARGETS[rel], kind)
             compile(new_src, rel, 'exec')
         except Exception as e:
             rec['status'] = f'build-error: {type(e).__name__}: {e}'
@@ -312,19 +426,22 @@ def main():
     ap.add_argument('--per-function', type=int, default=6)
     ap.add_argument('--files')
     ap.add_argument('--seed', type=int, default=1)
+    ap.add_argument('--kinds', default='extract')
     ap.add_argument('--rerun', help='re-run the variants of an earlier output file that were not silent')
     ap.add_argument('--show', help='print the variant source diff for file:function:k')
     a = ap.parse_args()
     if a.show:
-        rel, q, k = a.show.rsplit(':', 2)
+        parts = a.show.split(':')
+        rel, q, k = parts[0], parts[1], parts[2]
+        kind = parts[3] if len(parts) > 3 else 'extract'
         src = open(os.path.join(REPO, rel), encoding='utf-8').read()
-        new_src = extract(src, rel, q, int(k), TARGETS[rel])[0]
+        new_src = (extract(src, rel, q, int(k), TARGETS[rel]) if kind == 'extract' else rewrite(src, rel, q, int(k), TARGETS[rel], kind))[0]
         import difflib
         sys.stdout.writelines(difflib.unified_diff(src.splitlines(True), new_src.splitlines(True), rel, rel, n=1))
         return
-    specs = enumerate_variants(a.files.split(',') if a.files else None, a.per_function, a.seed)
+    specs = enumerate_variants(a.files.split(',') if a.files else None, a.per_function, a.seed, a.kinds.split(','))
     if a.rerun:
-        specs = [(r['file'], r['function'], r['k']) for r in map(json.loads, open(a.rerun)) if r['status'] in ('FALSE-ALARM', 'ANALYSIS-ERROR')]
+        specs = [(r['file'], r['function'], r['k'], r.get('kind', 'extract')) for r in map(json.loads, open(a.rerun)) if r['status'] in ('FALSE-ALARM', 'ANALYSIS-ERROR')]
     print(len(specs), 'variants', flush=True)
     counts = {}
     with open(a.out, 'w') as out, ThreadPoolExecutor(max_workers=a.jobs) as ex:
